@@ -1104,6 +1104,12 @@ pub fn check_main(reg: &Registry, id: &str, tier: Tier) -> i32 {
         println!("{}", l);
     }
     let _ = std::fs::remove_dir_all(&workdir);
+    // starvation guard: if (almost) nothing generated was non-trivial, the generator's preconditions
+    // no longer meet the code under test - that is "not decided", never a pass
+    if exit == 0 && evaluations >= 1000 && (distinct.len() as u64) * 200 < evaluations {
+        println!("INCONCLUSIVE property={} generator starved: only {} of {} cases were non-trivial by the stated rule", id, distinct.len(), evaluations);
+        return 2;
+    }
     if exit == 0 && (incomplete_workers > 0) {
         // a worker vanished without an attributable case: never a pass
         println!("INCONCLUSIVE property={} {} worker(s) ended without a result", id, incomplete_workers);
